@@ -840,7 +840,7 @@ Locale.corpus = [
      "spec": _one_test([["log", "error", "503 → retry"], ["log", "info", "after"]])},
     {"locale": "utf8", "backends": ["json"], "variant": 0, "save": "at_each_log", "texts": "surrogate",
      "spec": _one_test([["log", "info", "caf\udce9 \U0001F600"]], dname="caf\udce9 0")},
-    # open finding D39 (`C01/locale/console-cannot-print-text`): the console backend prints the step description raw
+    # open finding D41 (`C01/locale/console-cannot-print-text`): the console backend prints the step description raw
     {"locale": "ascii", "backends": ["console", "json"], "variant": 0, "save": None, "texts": "latin1",
      "spec": _one_test([["step", "\u00e9tape"], ["log", "info", "x"]])},
 ]
